@@ -4,4 +4,5 @@ from .common import run_carrier_sweep, run_tables
 
 def run(ck):
     run_tables(ck, 'C11.flat_line', cases.flat_line)
+    run_tables(ck, 'C11.flat_line', cases.flat_line_fractional)
     run_carrier_sweep(ck, 'C11.flat_line', cases.flat_line, n_max=4)
